@@ -205,3 +205,87 @@ control_validate_all(const tsk_id_t *parents, tsk_size_t n, tsk_size_t num_rows)
 out:
     return ret;
 }
+
+/* reference discipline of the glue (rules/lib_ref.py): minimal stand-ins for the CPython API */
+typedef struct _object PyObject;
+extern PyObject _Py_NoneStruct;
+#define Py_None (&_Py_NoneStruct)
+PyObject *PyList_New(long n);
+PyObject *PyList_GetItem(PyObject *list, long j);
+PyObject *Py_BuildValue(const char *fmt, ...);
+void Py_DECREF(PyObject *o);
+void Py_XDECREF(PyObject *o);
+void Py_INCREF(PyObject *o);
+
+PyObject *
+control_ref_leak(long n)
+{
+    PyObject *ret = NULL;
+    PyObject *list = NULL;
+
+    list = PyList_New(n);
+    if (list == NULL) {
+        goto out;
+    }
+    ret = Py_BuildValue("i", 1);
+out:
+    return ret;
+}
+
+PyObject *
+control_ref_released(long n)
+{
+    PyObject *ret = NULL;
+    PyObject *list = NULL;
+
+    list = PyList_New(n);
+    if (list == NULL) {
+        goto out;
+    }
+    ret = Py_BuildValue("i", 1);
+out:
+    Py_XDECREF(list);
+    return ret;
+}
+
+PyObject *
+control_ref_singleton(int flag)
+{
+    PyObject *ret = NULL;
+
+    if (flag) {
+        ret = Py_None;
+    }
+    return ret;
+}
+
+PyObject *
+control_ref_singleton_owned(int flag)
+{
+    PyObject *ret = NULL;
+
+    if (flag) {
+        ret = Py_None;
+        Py_INCREF(ret);
+    }
+    return ret;
+}
+
+int
+control_ref_borrowed_released(PyObject *list)
+{
+    PyObject *item = NULL;
+
+    item = PyList_GetItem(list, 0);
+    Py_XDECREF(item);
+    return 0;
+}
+
+int
+control_ref_borrowed_kept(PyObject *list)
+{
+    PyObject *item = NULL;
+
+    item = PyList_GetItem(list, 0);
+    return item != NULL;
+}
